@@ -1217,6 +1217,14 @@ func (w *World) opPersist(op *Op) {
 	fr := w.schedMakeRoot(t.m, d, faults, failAt, failKind, stall)
 	_, stored, _, storeCalls := d.Window()
 	w.log.Str(strings.Join(fr.order, ","))
+	// the write monitor is consulted before anything is read back: bytes stored under a name
+	// that is not their hash are not fed to the decoder
+	if len(d.MonViol) > 0 {
+		mv := d.MonViol[0]
+		d.MonViol = nil
+		w.failFor("C08", mv.Clause, "%s", mv.Detail)
+		return
+	}
 	if fr.deadlock {
 		w.failFor("C03", "flush-deadlock", "MakeRoot neither returned nor has a Store in flight at quiescence (after %d steps)", fr.steps)
 		return
